@@ -284,4 +284,4 @@ PARTS = [
     Part("service", eval_case, {"quick": 1200, "thorough": 40000}, strategy=strategy, min_nontrivial={"quick": 500, "thorough": 15000}),
     Part("heat_pump_options", eval_case, {"quick": 8, "thorough": 160}, strategy=strategy_hp, min_nontrivial={"quick": 2, "thorough": 40}),
 ]
-MIN_SHARE = {"service": {"single-stream": 0.03, "only-hot": 0.05, "only-cold": 0.05, "isothermal": 0.1, "zero-contributions": 0.1, "duplicate-names": 0.2, "value-with-unit": 0.1, "mixed-spellings": 0.08, "explicit-zone-tree": 0.03, "opt:DT_PHASE_CHANGE<=0": 0.02}}
+MIN_SHARE = {"service": {"single-stream": 0.03, "only-hot": 0.05, "only-cold": 0.05, "isothermal": 0.1, "zero-contributions": 0.1, "duplicate-names": 0.2, "value-with-unit": 0.1, "mixed-spellings": 0.068, "explicit-zone-tree": 0.03, "opt:DT_PHASE_CHANGE<=0": 0.015}}
